@@ -505,12 +505,13 @@ def _pkg_depth(name, f):
     return n if os.path.basename(f) == '__init__.py' else n - 1
 
 
-def judge(layout, pl, jn, ch, jobs, only_pid=None):
+def judge(layout, pl, jn, ch, jobs):
     """Compare.  -> (fails, counters, classes)"""
     base = pl['base']
     fails = []
     cnt = {}
     classes = set()
+    samples = {}
 
     def inc(k, n=1):
         cnt[k] = cnt.get(k, 0) + n
@@ -527,9 +528,8 @@ def judge(layout, pl, jn, ch, jobs, only_pid=None):
         inc('files')
         for key, site in (('ctx', 'get_context.full_name'), ('tptd', 'transform_path_to_dotted')):
             if key + '_exc' in rec:
-                if only_pid is None:
-                    fail(rec[key + '_exc'][0], 'name:%s|%s' % (rel, key),
-                         {'file': f, 'traceback': rec[key + '_exc'][1]})
+                fail(rec[key + '_exc'][0], 'name:%s|%s' % (rel, key),
+                     {'file': f, 'traceback': rec[key + '_exc'][1]})
                 continue
             name = rec.get(key)
             if not valid:
@@ -538,10 +538,9 @@ def judge(layout, pl, jn, ch, jobs, only_pid=None):
             inc('name-judged')
             got = ch['names'].get(name) if name is not None else None
             if got != ['module', f]:
-                if only_pid is None:
-                    fail('dotted-name-does-not-import-back@' + site, 'name:%s|%s' % (rel, key),
-                         {'file': f, 'sys_path': pl['sys_path'], 'jedi_name': name,
-                          'child_imports_that_name_to': got, 'names_importing_this_file': valid})
+                fail('dotted-name-does-not-import-back@' + site, 'name:%s|%s' % (rel, key),
+                     {'file': f, 'sys_path': pl['sys_path'], 'jedi_name': name,
+                      'child_imports_that_name_to': got, 'names_importing_this_file': valid})
             elif key == 'ctx':
                 usable[f] = name
         if f not in usable and rec.get('ctx') in valid:
@@ -549,14 +548,12 @@ def judge(layout, pl, jn, ch, jobs, only_pid=None):
     mrec = jn[pl['main']]
     if mrec.get('ctx') == '__main__':
         usable[pl['main']] = '__main__'
-    elif only_pid is None:
+    else:
         fail('script-outside-sys-path-not-__main__@get_context.full_name', 'name:main.py|ctx',
              {'file': pl['main'], 'sys_path': pl['sys_path'], 'jedi': mrec})
 
     # ---- clause 1: programs
     for prog in pl['programs']:
-        if only_pid is not None and prog['pid'] != only_pid:
-            continue
         f = prog['file']
         if f not in usable:
             inc('programs-skipped(issuing file has no importable/derived name)')
@@ -628,6 +625,11 @@ def judge(layout, pl, jn, ch, jobs, only_pid=None):
                              tuple(sorted({e[0] for e in accept})),
                              tuple(x[0] for x in o), okay))
                 if okay:
+                    if accept[0] != ['none'] and prog['form'] not in samples:
+                        samples[prog['form']] = _rel({
+                            'tree': layout['id'], 'issuing': os.path.relpath(f, base),
+                            'issuing_as': name, 'code': prog['code'], 'probe': label,
+                            'method': m, 'python': accept, 'jedi': o}, base)
                     continue
                 if o == []:
                     site = 'unresolved@' + m
@@ -636,7 +638,7 @@ def judge(layout, pl, jn, ch, jobs, only_pid=None):
                 else:
                     site = 'wrong-target@' + m
                 fail(site, iid, detail)
-    return fails, cnt, classes
+    return fails, cnt, classes, samples
 
 
 def _work(task):
@@ -675,7 +677,7 @@ def _work(task):
     for n, d in res['pool_clean'].items():
         if d != ['none']:
             raise RuntimeError('pool name %r is importable without any root: %r' % (n, d))
-    out = {'fails': [], 'counts': {}, 'classes': set(), 'layouts': len(plans)}
+    out = {'fails': [], 'counts': {}, 'classes': set(), 'layouts': len(plans), 'samples': {}}
     for layout, pl, jn in plans:
         ch = res['trees'][pl['base']]
         jobs = {}
@@ -683,7 +685,9 @@ def _work(task):
             if task.get('only') is not None and prog['pid'] != task['only']:
                 continue
             jobs[prog['pid']] = run_program(jedi, env, pl, prog)
-        fails, cnt, classes = judge(layout, pl, jn, ch, jobs, task.get('only_pid'))
+        fails, cnt, classes, smp = judge(layout, pl, jn, ch, jobs)
+        for k, v in smp.items():
+            out['samples'].setdefault(k, v)
         for fl in fails:
             fl['layout'] = layout
         out['fails'] += fails
@@ -707,6 +711,7 @@ def run(ctx):
     done = []
     exhaustive = True
     samples = []
+    sample_cases = {}
     nlayouts = 0
     for name, layouts in families(ctx.tier):
         if ctx.time_left() < 10:
@@ -730,6 +735,9 @@ def run(ctx):
             for k, v in r['counts'].items():
                 counts[k] = counts.get(k, 0) + v
             classes.update(r['classes'])
+            for k, v in sorted(r.get('samples', {}).items()):
+                if k not in sample_cases and i == min(pres.results):
+                    sample_cases[k] = v
             for f in r['fails']:
                 pid = None
                 parts = f['input'][len(f['layout']['id']) + 1:]
@@ -757,7 +765,8 @@ def run(ctx):
                 'distinct_nontrivial = distinct (import form, issuing kind, probe kind, kinds '
                 'python selected, kinds jedi returned, verdict) classes',
         'layouts': nlayouts, 'programs': counts.get('programs', 0),
-        'levels_completed': done, 'exhaustive': exhaustive, 'samples': samples,
+        'levels_completed': done, 'exhaustive': exhaustive,
+        'samples': samples + [sample_cases[k] for k in sorted(sample_cases)],
         'counters': {k: counts[k] for k in sorted(counts)},
     })
     ctx.assumptions += [
